@@ -41,7 +41,8 @@ def _exc_kind(e):
 # 8-bit SOFTMAX exp table
 # ----------------------------------------------------------------------------------------------------------------------
 SOFTMAX_BETAS = [0.1, 0.5, 0.7, 1.0, 1.3, 2.0, 3.0]
-# significand of beta * input_scale within 2^-32 of 1: quantise_scale returns the unnormalised multiplier 2^31 (TFLite halves it)
+# significand of beta * input_scale within 2^-32 of 1: quantise_scale returns the unnormalised multiplier 2^31 (TFLite halves it, and so
+# does generate_exp_table since /repo 20248de; before that it raised - the corner stays in the generator)
 M31_BETA = 10610063 / 2 ** 23          # float32-valued; 10610063 * 13264529 = 2^47 - 1
 M31_SCALE_SIG = 13264529 / 2 ** 23
 
@@ -184,6 +185,10 @@ def softmax_exp_stream(ck, np):
         else:
             ck.count("softmax_exp_model_" + mout)
         ck.count(f"softmax_exp_reference_{'ok' if verdict == '1' else ('na' if verdict == 'na' else 'reject')}")
+        if outs[c["qi2"]].startswith("ok 2147483648 "):
+            # quantise_scale returned the unnormalised multiplier 2^31 (renormalised by the code since 20248de and by the model):
+            # records how often the corner was hit, nothing else - model = code and the reference verdict are judged below as everywhere
+            ck.count("softmax_exp_tables_multiplier_2^31_renormalised")
         same = (c["status"] == "ok" and model_ok and " ".join(map(str, c["real"])) == mout[3:]) or (c["status"] != "ok" and c["status"] == mout)
         what = None
         found = True
@@ -195,10 +200,6 @@ def softmax_exp_stream(ck, np):
                         f"exp table differs from the TFLite reference (PreprocessSoftmaxScaling in double + exp_on_negative_values): {chk[2:120]}")
                 if same:
                     what += " although Model/SoftmaxTable.lean and the code agree (softmax_exp_table_spec must have failed too)"
-            elif not same and verdict == "1" and mout == "err:assert" and outs[c["qi2"]].startswith("ok 2147483648 "):
-                # the code yields the reference's table where the model (transcription of the unrepaired code) rejects the unnormalised
-                # multiplier 2^31: the finding softmax-exp-table-multiplier-2^31-rejected is repaired in this tree (verif_patches/C19-10)
-                ck.count("softmax_exp_multiplier_2^31_code_follows_reference")
             elif not same:
                 what = (f"correspondence Model/SoftmaxTable.lean vs SoftMax.generate_exp_table broken: beta {c['beta_type']} {float(c['beta'])!r}, scale {c['scale_type']} "
                         f"{float(c['scale'])!r}: implementation table != model ({mout[:40]}…), reference verdict {chk[:60]}")
@@ -208,8 +209,6 @@ def softmax_exp_stream(ck, np):
                 # the reference yields a table, the code raises
                 what = (f"SoftMax.generate_exp_table({c['beta_type']} {float(c['beta'])!r}, {c['scale_type']} {float(c['scale'])!r}) raises {c['detail']} "
                         f"where the TFLite reference yields a table ({chk[chk.find('mult'):][:40]})")
-                if c["status"] == "err:assert" and mout == "err:assert" and outs[c["qi2"]].startswith("ok 2147483648 "):
-                    key = "softmax-exp-table-multiplier-2^31-rejected"
             elif not same:
                 what = (f"correspondence Model/SoftmaxTable.lean vs SoftMax.generate_exp_table broken on rejected input: beta {float(c['beta'])!r}, scale "
                         f"{float(c['scale'])!r}: implementation {c['status']} ({c['detail']}), model {mout[:40]}")
